@@ -20,6 +20,8 @@ props.prop(
             'polygon helpers apply no rounding or absolute tolerance to coordinate values',
     not_decided='where region edges fall between category positions (rounding in from_range, polygon/line intersections)',
     assumptions=['region classes outside glue/ are not seen'])
+props.also('C09',
+           'scale-free polygon helpers (no absolute tolerance); shared view-dependence rule of the categorical lookup (C04.f)')
 
 FUNC = 'glue.core.subset.roi_to_subset_state'
 NAMED = ['XRangeROI', 'YRangeROI', 'RectangularROI', 'CategoricalROI', 'CircularROI', 'CircularAnnulusROI',
